@@ -454,7 +454,9 @@ enum Sp {
     /// several references into a few shared objects, one (de)serialisation context
     /// `clear_at`: both contexts are cleared (SerializationContext::clear / DeserializationContext::clear)
     /// before that reference and then used again
-    Shared { vals: Vec<String>, refs: Vec<usize>, detect: bool, arc: bool, clear_at: Option<usize> },
+    /// `mixed`: a second pointer type (`Rc<u32>` / `Arc<u32>`) goes through the same serialisation
+    /// context between the references, so the ids each reading context sees are not dense
+    Shared { vals: Vec<String>, refs: Vec<usize>, detect: bool, arc: bool, clear_at: Option<usize>, mixed: bool },
     SerBytes(String, u8),
     /// Some = the referent is alive while serialising, None = dangling
     WeakRc(Option<u32>),
@@ -637,7 +639,7 @@ fn gen_val(fam: Fam, i: usize, o: [u64; 4], big: usize) -> Val {
                     let vals: Vec<String> = (0..nv).map(|k| if twins { format!("sh{}-twin", i) } else { format!("sh{}-{}-{}", i, k, s(a + k as u64)) }).collect();
                     let refs: Vec<usize> = (0..(1 + b % 5)).map(|k| ((b >> (2 * k)) as usize) % nv).collect();
                     let clear_at = if (o[3] >> 4) % 3 == 0 { Some(((o[3] >> 6) as usize) % refs.len()) } else { None };
-                    Sp::Shared { vals, refs, detect: o[3] % 2 == 0, arc: o[3] % 4 >= 2, clear_at }
+                    Sp::Shared { vals, refs, detect: o[3] % 2 == 0, arc: o[3] % 4 >= 2, clear_at, mixed: (o[3] / 4) % 3 == 0 }
                 }
                 _ => Sp::SerBytes(s(a), (b % 4) as u8),
             })
@@ -929,21 +931,29 @@ impl Val {
                 Sp::ArcU(v) => <Arc<u64> as SerializableType>::serialize(&Arc::new(*v), o),
                 Sp::ArcVec(v) => <Arc<Vec<u16>> as SerializableType>::serialize(&Arc::new(v.clone()), o),
                 Sp::VecRc(v) => <Vec<Rc<u32>> as SerializableType>::serialize(&v.iter().map(|x| Rc::new(*x)).collect(), o),
-                Sp::Shared { vals, refs, detect, arc, clear_at } => {
+                Sp::Shared { vals, refs, detect, arc, clear_at, mixed } => {
                     let mut ctx = if *detect { SerializationContext::new() } else { SerializationContext::without_cycle_detection() };
                     if *arc {
                         let objs: Vec<Arc<String>> = vals.iter().map(|s| Arc::new(s.clone())).collect();
+                        let nums: Vec<Arc<u32>> = (0..vals.len() as u32).map(|x| Arc::new(1000 + x)).collect();
                         for (k, &r) in refs.iter().enumerate() {
                             if *clear_at == Some(k) {
                                 ctx.clear();
+                            }
+                            if *mixed {
+                                <Arc<u32> as SmartPtrSerialize<u32>>::serialize_with_context(&nums[r], o, &mut ctx)?;
                             }
                             <Arc<String> as SmartPtrSerialize<String>>::serialize_with_context(&objs[r], o, &mut ctx)?;
                         }
                     } else {
                         let objs: Vec<Rc<String>> = vals.iter().map(|s| Rc::new(s.clone())).collect();
+                        let nums: Vec<Rc<u32>> = (0..vals.len() as u32).map(|x| Rc::new(1000 + x)).collect();
                         for (k, &r) in refs.iter().enumerate() {
                             if *clear_at == Some(k) {
                                 ctx.clear();
+                            }
+                            if *mixed {
+                                <Rc<u32> as SmartPtrSerialize<u32>>::serialize_with_context(&nums[r], o, &mut ctx)?;
                             }
                             <Rc<String> as SmartPtrSerialize<String>>::serialize_with_context(&objs[r], o, &mut ctx)?;
                         }
@@ -1066,13 +1076,21 @@ impl Val {
                 Sp::ArcU(v) => cmp(v, &*<Arc<u64> as SerializableType>::deserialize(i)?),
                 Sp::ArcVec(v) => cmp(v, &*<Arc<Vec<u16>> as SerializableType>::deserialize(i)?),
                 Sp::VecRc(v) => cmp(v, &<Vec<Rc<u32>> as SerializableType>::deserialize(i)?.iter().map(|r| **r).collect()),
-                Sp::Shared { vals, refs, arc, clear_at, .. } => {
+                Sp::Shared { vals, refs, arc, clear_at, mixed, .. } => {
                     let mut bad = None;
                     if *arc {
                         let mut ctx = DeserializationContext::<Arc<String>>::new();
+                        let mut nctx = DeserializationContext::<Arc<u32>>::new();
                         for (k, &r) in refs.iter().enumerate() {
                             if *clear_at == Some(k) {
                                 ctx.clear();
+                                nctx.clear();
+                            }
+                            if *mixed {
+                                let g = <Arc<u32> as SmartPtrSerialize<u32>>::deserialize_with_context(i, &mut nctx)?;
+                                if *g != 1000 + r as u32 && bad.is_none() {
+                                    bad = Some(format!("number reference #{} decoded to {}", k, *g));
+                                }
                             }
                             let g = <Arc<String> as SmartPtrSerialize<String>>::deserialize_with_context(i, &mut ctx)?;
                             if *g != vals[r] && bad.is_none() {
@@ -1081,9 +1099,17 @@ impl Val {
                         }
                     } else {
                         let mut ctx = DeserializationContext::<Rc<String>>::new();
+                        let mut nctx = DeserializationContext::<Rc<u32>>::new();
                         for (k, &r) in refs.iter().enumerate() {
                             if *clear_at == Some(k) {
                                 ctx.clear();
+                                nctx.clear();
+                            }
+                            if *mixed {
+                                let g = <Rc<u32> as SmartPtrSerialize<u32>>::deserialize_with_context(i, &mut nctx)?;
+                                if *g != 1000 + r as u32 && bad.is_none() {
+                                    bad = Some(format!("number reference #{} decoded to {}", k, *g));
+                                }
                             }
                             let g = <Rc<String> as SmartPtrSerialize<String>>::deserialize_with_context(i, &mut ctx)?;
                             if *g != vals[r] && bad.is_none() {
